@@ -103,7 +103,7 @@ class H:
         self.unwind = unwind            # int or {'quick':n,'thorough':m}
         self.unwindset = unwindset or []
         self.cbmc = list(cbmc); self.cflags = list(cflags)
-        self.timeout = timeout or {'quick': 300, 'thorough': 1800}
+        self.timeout = timeout or {'quick': 900, 'thorough': 3600}   # roughly 3x the slowest measured default-budget query: a slower or busier machine must not turn a held check into exit 2
         self.mem_gb = mem_gb
         self.bounds = bounds; self.stubs = list(stubs); self.assumptions = list(assumptions); self.out_of_claim = out_of_claim
         self.samples = list(samples); self.native = native; self.sanitize = sanitize
